@@ -600,6 +600,23 @@ func (t *Teamserver) DispatchEvent(pk packager.Package) {
 								ListenerName = val.(string)
 							}
 
+							// listener names are unique across all listener types
+							if t.ListenerExist(ListenerName) {
+								t.Clients.Range(func(key, value any) bool {
+									id := key.(string)
+									client := value.(*Client)
+									if client.Username == pk.Head.User {
+										err := t.SendEvent(id, events.Listener.ListenerError(pk.Head.User, ListenerName, errors.New("listener already exists")))
+										if err != nil {
+											logger.Error("Failed to send Event: " + err.Error())
+										}
+										return false
+									}
+									return true
+								})
+								return
+							}
+
 							// try to start the listener.
 							if err = listener.Start(pk.Body.Info); err != nil {
 								t.EventListenerError(ListenerName, err)
